@@ -63,11 +63,19 @@ CHECKS = {
              'decode(encode v ++ rest) = (v, rest) for fields, records (any list of fields) and counted loops; record length = sum of '
              'declared widths; an accepted value never spills into the neighbouring field. Field kinds, widths, loops and the list of '
              'classes with hand-written byte logic are re-read from the element classes by reflection on every run; every generated '
-             'instance is re-encoded by the Lean codec and compared with to_bytes byte for byte.',
+             'instance is re-encoded by the Lean codec and compared with to_bytes byte for byte. A second, richer format language '
+             '(conditional parts decided by earlier fields, length-prefixed areas, computed counts and lengths, big-endian binary '
+             'fields, nesting, loops) with one encoder / decoder / length function carries the same theorems for every well-formed '
+             'description: round trip, exact length, re-encoding of conformant bytes, prefix-freeness, injectivity, back-to-back TRE '
+             'envelopes; 30 descriptions (security tags, user-header areas, image comments / bands with LUT blocks and the XBANDS '
+             'escape, item arrays, image / DES / text / graphics / RES subheaders of NITF 2.1 and 2.0, file headers, mask subheader, '
+             'TRE envelope) are regenerated from the current classes (reflection + AST of the conditional code, cross-checking the '
+             'encoder-side and decoder-side presence conditions) and each is kernel-decided well formed on every run.',
         design='DESIGN.md 3.5, 6/C13',
-        note='proved: field/record/loop codec. Correspondence only: classes overriding byte-level methods (their parts enter the model as '
-             'opaque raw fields), TREs (captured payloads only), NITF 2.0 symbol/label specifics. Standard-side lengths are a hand '
-             'transcription of MIL-STD-2500C. ' + TB,
+        note='proved: both codecs for all descriptions; the generated descriptions are well formed (kernel). Transcribed by hand inside the '
+             'generator (marked there): LUT shape, band escape, item arrays, user-header area layout, mask tables, TRE envelope. '
+             'Correspondence / oracle only: NITF 2.0 label and symbol subheaders, field layouts of the registered TREs, enumerated value '
+             'sets, Python int() leniency on non-conformant input. Standard-side lengths are a hand transcription of MIL-STD-2500C. ' + TB,
         technique='Lean 4 proof (induction on widths/field lists) + reflection translator + byte-exact correspondence'),
     'C03': dict(
         text='Lean 4 theorems about the NITF layout arithmetic, unbounded in segment count and sizes: offsets computed as running sums '
